@@ -126,6 +126,17 @@ func (node *Node) processUnconfirmedTx(ctx context.Context, tx handlers.TxData) 
 			return errors.Wrap(err, "fetch outputs")
 		}
 	} else {
+		if txState.State.MerkleProof != nil &&
+			node.blocks.Contains(txState.State.MerkleProof.BlockHeader.BlockHash()) {
+			// Already confirmed in a block of the current chain and sent with its merkle proof. A
+			// later announcement must not send it again as a new unconfirmed tx.
+			logger.Info(ctx, "Tx already confirmed : %s", hash)
+			if _, err := node.txs.Remove(ctx, *hash, -1); err != nil {
+				return errors.Wrap(err, "Failed to remove from tx repo")
+			}
+			return nil
+		}
+
 		logger.Info(ctx, "Updating tx state : %s", hash)
 	}
 
